@@ -22,7 +22,7 @@ FAULTS = [
     ("duplicate-label", ["main_label: nop"]),
     ("error-directive", [".error \"stop\""]),
     ("unknown-directive", [".frobnicate 1", ".list"]),
-    ("branch-range", ["  breq far_label"]),
+    ("branch-range", ["  breq far_label", "  brne pc+65", "  rjmp pc+2049", "  breq pc-64", "  rcall pc-2048"]),
     ("undef-unknown", [".undef never_defined", ".undef framereg\n.undef framereg"]),
     ("def-not-register", [".def myreg = notareg"]),
     ("device-unknown", [".device NoSuchDevice"]),
